@@ -85,10 +85,27 @@ def arm_constraints(arm, binds):
         s_ = unsemi(st)
         target = None
         expr = s_
+        if s_.get("k") == "if" and "else" not in s_ and not last and any(x.get("k") == "ctor" and callee(x).endswith("Result::Err") for x in walk(s_["then"])) \
+                and any(x.get("k") in ("return",) for x in walk(s_["then"])):
+            # `if cond { return Err(..) }`: an early rejection
+            cons.add(("reject", normcmp(s_["cond"], names)))
+            continue
+        if s_.get("k") == "let" and s_["pat"].get("k") == "pstruct" and "init" in s_ and peel(s_["init"]).get("k") == "local":
+            # `let ArrayType { index_width: iw, data_width: dw } = array_tpe;`: the bindings name the fields of that value
+            src = names.get(peel(s_["init"])["name"], peel(s_["init"])["name"])
+            for fl in s_["pat"]["fields"]:
+                b = binding_of(fl["pat"])
+                if b:
+                    names[b[0]] = "%s.%s" % (src, fl["name"])
+            continue
         if s_.get("k") == "let":
             b = binding_of(s_["pat"])
             target = b[0] if b else None
             expr = s_["init"]
+            ini = strip_try(expr)
+            if target and ini.get("k") == "mcall" and ini["name"] == "get_type" and _key_of(ini["recv"], binds) is not None:
+                # `let a_tpe = a.get_type(ctx);` names the type of that child; uses are resolved where they occur
+                continue
         res = analyse(expr, binds, names, cons)
         if target and res:
             names[target] = res if isinstance(res, str) else "%s(%s)" % (res[0], ",".join(str(x) for x in res[1:]))
@@ -108,8 +125,21 @@ def analyse(n, binds, names, cons):
 
     def wtxt(x):
         return _subst(show(peel(x)).replace(" ", ""), names)
+    if k == "mcall" and inner["name"] == "map" and "Result" in (inner.get("path") or "") and len(inner["args"]) == 1:
+        # `check(..).map(|_| T)`: the constraint of the check, the value T
+        cl = resolve(inner["args"][0])
+        analyse(inner["recv"], binds, names, cons)
+        if cl.get("k") == "closure":
+            v = resolve(cl["body"])
+            if v.get("k") == "ctor" and callee(v).endswith("Type::BV"):
+                return ("BV", _subst(show(peel(v["args"][0])).replace(" ", ""), names))
+        return None
     if k == "mcall" and inner["name"] in ("expect_bv", "expect_bv_of", "expect_array"):
-        r = strip_try(inner["recv"])
+        r = strip_try(resolve(strip_try(inner["recv"])))
+        if r.get("k") == "ctor" and callee(r).endswith("Type::BV") and inner["name"] == "expect_bv_of":
+            # `Type::BV(w).expect_bv_of(width, ..)`: yields BV(w) when w equals the annotated width
+            cons.add(("result_of", wtxt(inner["args"][0])))
+            return ("BV", wtxt(r["args"][0]))
         if r.get("k") == "mcall" and r["name"] == "get_type":
             child = key(r["recv"])
             if child is None:
@@ -157,7 +187,7 @@ def analyse_result(n, binds, names, cons):
     def wtxt(x):
         return _subst(show(peel(x)).replace(" ", ""), names)
     if k == "ctor" and callee(inner).endswith("Result::Ok"):
-        a = peel(inner["args"][0])
+        a = resolve(inner["args"][0])
         if a.get("k") == "ctor" and callee(a).endswith("Type::BV"):
             return ("BV", wtxt(a["args"][0]))
         if a.get("k") == "ctor" and callee(a).endswith("Type::Array"):
